@@ -1,5 +1,5 @@
 SPECIFICATION TSpec
-CONSTANTS NoSchedOn = FALSE  OwnDefault = TRUE
+CONSTANTS NoSchedOn = FALSE  OwnDefault = TRUE  FetchOn = TRUE
   Zones <- ZonesC  Vers <- VersT  NF <- NFc  ZoneOf <- ZoneOfC
 INVARIANT Verdict
 CHECK_DEADLOCK FALSE
